@@ -67,6 +67,37 @@ CLAIMED = {
         technique='Lean 4 proofs of the decision logic over an executable launcher model + differential correspondence on generated '
                   'task histories with independent Python monitors',
         design='6/C17'),
+    'C11': dict(
+        text='Lean theorems C11_accepts_iff / C11_validate_iff / C11_accepts_iff_decl (construction succeeds iff the inputs completed by the declared defaults '
+             'conform to the spec, for every nested port tree, every nested input dictionary and every validator oracle), '
+             'C11_defaults_exact (the parsed inputs are the raw inputs completed with exactly the declared defaults, per key at every '
+             'declared level; C11_supplied_preserved is its path form), C11_frozen_levels (every declared namespace level is a frozen '
+             'mapping), C11_reject_classes. The model is compared with real Process construction on every spec with <= 2 ports '
+             '(<= 3 thorough) x small inputs and on thousands of random specs with <= 6 ports (accept/reject, exception class, failing '
+             'port path, parsed tree with frozen tag per level); independent Python monitors check acceptance, the completed inputs, '
+             'immutability by mutation attempts, raw_inputs and the caller\'s dictionary, and that a second construction agrees.',
+        note='Modelled, not verified: PortNamespace.pre_process / validate / validate_ports / validate_dynamic_ports, Port.validate, '
+             'InputPort.required_override, Process.on_create (hand-written Lean mirror, differential check per case). Non-mutation of '
+             'raw_inputs and of the caller\'s dictionary is decided by the correspondence check only. C11_accepts_iff_decl (completion '
+             'given by the per-key relation DefaultsExact instead of the model function) assumes validators that cannot tell two '
+             'completions of the same inputs apart (key order).',
+        technique='Lean 4 proof by mutual structural induction over port trees (model validate = declarative Conforms; pre_process = '
+                  'declarative completion) + differential correspondence on generated specs and inputs',
+        design='6/C11'),
+    'C12': dict(
+        text='Lean theorems C12_out_stores_iff (out() succeeds iff the output spec, as extended by earlier calls, accepts (path, value) '
+             'and the place is free), C12_out_stored (value found at its path, unrelated paths unchanged, listener told (path, value, '
+             'dynamic)), C12_out_failed (outputs and notifications unchanged, ValueError exactly for a rejected value), '
+             'C12_successful_iff (FINISHED with the result preserved; successful iff the step result was successful and the outputs '
+             'conform), C12_future_reports_outputs (notifications = the calls that returned, outputs = those re-inserted in order = '
+             'future result = on_process_finished argument), for every output spec, oracle and emission sequence. Compared with real '
+             'runs per emission (outcome class, dynamic flag, notification, outputs, port-name tree of the spec) and at the end.',
+        note='Modelled, not verified: Process.out, PortNamespace.get_port(create_dynamically=True), Process.on_finish and the '
+             'StateEntryFailed branch of StateMachine.transition_to (hand-written Lean mirror, differential check per emission). '
+             'The rest of the state machine around FINISHED is C01/C02.',
+        technique='Lean 4 proof (induction over dotted names and emission sequences, reusing the C11 validation theorem) + differential '
+                  'correspondence on generated output specs and emission sequences',
+        design='6/C12'),
 }
 
 PM_NOTE = ('Modelled, not verified: Process.step / step_until_terminated / pause / play / kill / resume / fail / call_soon / '
